@@ -28,6 +28,10 @@ pub fn install_panic_hook() {
         } else {
             "<non-string panic>".to_string()
         };
+        // panics on a main thread (driver, worker main loop) are harness bugs: show them
+        if std::thread::current().name() == Some("main") {
+            eprintln!("HARNESS-PANIC (main thread) at {loc}: {msg}");
+        }
         LAST_PANIC.with(|p| *p.borrow_mut() = Some(format!("{loc}: {msg}")));
     }));
 }
